@@ -2,6 +2,7 @@ package main
 
 import (
 	"fmt"
+	"go/constant"
 	"go/token"
 	"go/types"
 	"sort"
@@ -1414,58 +1415,30 @@ func c01ParserProgress(c *Ctx, ro *ParserRoles) {
 				}
 				return false
 			}
-			edgeProgress := func(b *ssa.BasicBlock, k int) bool {
-				iff, ok := b.Instrs[len(b.Instrs)-1].(*ssa.If)
+			// A cycle without progress can only exist if every conditional consumer on it failed
+			// (a conditional consumer that succeeded has consumed). Fold the function with all
+			// conditional consumers pinned to their failure value and look for a cycle along the
+			// edges that stay executable.
+			pinFail := func(v ssa.Value) (constant.Value, bool) {
+				call, ok := v.(*ssa.Call)
 				if !ok {
-					return false
-				}
-				// find a conditional consumer call the condition tests
-				var call *ssa.Call
-				switch x := iff.Cond.(type) {
-				case *ssa.Call:
-					call = x
-				case *ssa.BinOp:
-					if cl, ok := x.X.(*ssa.Call); ok {
-						call = cl
-					} else if cl, ok := x.Y.(*ssa.Call); ok {
-						call = cl
-					}
-				case *ssa.UnOp:
-					if cl, ok := x.X.(*ssa.Call); ok {
-						call = cl
-					}
-				}
-				if call == nil {
-					// a phi of conditional-consumer results and nil: `x != nil` implies one of them consumed
-					if bo, ok := iff.Cond.(*ssa.BinOp); ok && (bo.Op == token.NEQ || bo.Op == token.EQL) && isNilConst(bo.Y) {
-						if phi, ok := bo.X.(*ssa.Phi); ok {
-							all := len(phi.Edges) > 0
-							for _, e := range phi.Edges {
-								if isNilConst(e) {
-									continue
-								}
-								cl, ok := e.(*ssa.Call)
-								if !ok || calleeOf(cl) == nil || !c.consumesOnSuccess(calleeOf(cl), 0) {
-									all = false
-								}
-							}
-							if all {
-								nn := 0
-								if bo.Op == token.EQL {
-									nn = 1
-								}
-								return k == nn
-							}
-						}
-					}
-					return false
+					return nil, false
 				}
 				cal := calleeOf(call)
-				if cal == nil || !c.consumesOnSuccess(cal, 0) {
-					return false
+				if cal == nil || must[cal] || !c.consumesOnSuccess(cal, 0) {
+					return nil, false
 				}
-				fe := falseEdgeOf(iff, call)
-				return fe >= 0 && k != fe
+				if isBoolType(call.Type()) {
+					return constant.MakeBool(false), true
+				}
+				if isPointerLike(call.Type()) {
+					return constant.MakeUnknown(), true
+				}
+				return nil, false
+			}
+			fr := c.foldWith(f, 0, pinFail)
+			edgeProgress := func(b *ssa.BasicBlock, k int) bool {
+				return !fr.Edge[[2]int{b.Index, b.Succs[k].Index}]
 			}
 			path, stuck := l.cycleAvoiding(progress, edgeProgress)
 			c.R.Check(rule, cons, c.P.InstrPos(l.Header.Instrs[0]), !stuck, "there is a cycle through this parser loop that consumes no token ("+blockPath(path)+"): the parser can hang")
